@@ -13,5 +13,6 @@ CONSTANTS
   BareUpdate = "refused"
   Sizes = {0, 65535, 65536, 65537, 524287, 524288, 524289, 1048577, 3145728, 16777216}
   ReadLimit = 0
+  OwnFrame = TRUE
 INVARIANTS StoredForm ReadBack OnlyWhenEnabled OffMeansOff
 CHECK_DEADLOCK FALSE
